@@ -22,10 +22,17 @@ use std::task::{Context, Poll, Waker};
 use tokio::io::{AsyncRead, ReadBuf};
 
 /// Poll a future once with a no-op waker; every reader/writer in this module is always ready.
+/// The completed future is deliberately not dropped: the drop glue of an `async fn` state machine
+/// switches over all suspension points and drops every possible sub-future (for
+/// `NtsRecord::parse` that is 15 sub-parsers with their buffers), which costs more symbolic
+/// execution than the parse itself (measured: 36 s -> see registry notes). A completed future
+/// owns nothing any more, so nothing is leaked that matters.
 pub fn block_on_ready<F: Future>(fut: F) -> F::Output {
-    let mut fut = pin!(fut);
+    let mut fut = std::mem::ManuallyDrop::new(fut);
+    // Safety: `fut` is a local that is never moved again (and never dropped).
+    let pinned = unsafe { Pin::new_unchecked(&mut *fut) };
     let mut cx = Context::from_waker(Waker::noop());
-    match fut.as_mut().poll(&mut cx) {
+    match pinned.poll(&mut cx) {
         Poll::Ready(v) => v,
         Poll::Pending => panic!("in-memory future was not ready at the first poll"),
     }
@@ -421,6 +428,39 @@ fn probe_port_min() {
         Ok(r) => {
             assert!(size_field == 2 && blen >= 2);
             std::mem::forget(r);
+        }
+        Err(e) => std::mem::forget(e),
+    }
+}
+
+async fn my_port(mut reader: tokio::io::Take<impl AsyncRead + Unpin>) -> Result<u16, std::io::Error> {
+    use tokio::io::AsyncReadExt;
+    let port = reader.read_u16().await?;
+    if reader.limit() != 0 { Err(std::io::ErrorKind::InvalidData.into()) } else { Ok(port) }
+}
+async fn my_parse(mut reader: impl AsyncRead + Unpin) -> Result<u16, std::io::Error> {
+    use tokio::io::AsyncReadExt;
+    let ty = reader.read_u16().await?;
+    let size = reader.read_u16().await?;
+    let body = reader.take(size.into());
+    match ty & 0x7fff {
+        7 => my_port(body).await,
+        _ => Err(std::io::ErrorKind::InvalidData.into()),
+    }
+}
+#[kani::proof]
+#[kani::unwind(4)]
+fn probe_port_mine() {
+    let body_bytes: [u8; 4] = kani::any();
+    let size_field: usize = kani::any();
+    let blen: usize = kani::any();
+    kani::assume(blen <= 4 && size_field <= 65535);
+    let head = [0x80, 7, (size_field >> 8) as u8, size_field as u8];
+    let mut rd = HeadBody { head, head_pos: 0, body: &body_bytes[..blen], body_pos: 0 };
+    let res = block_on_ready(my_parse(&mut rd));
+    match res {
+        Ok(r) => {
+            assert!(size_field == 2 && blen >= 2);
         }
         Err(e) => std::mem::forget(e),
     }
